@@ -68,8 +68,21 @@ def core_tree(rng, depth):
         if kind == "set":
             return ast.SetComp(elt=r(), generators=gens)
         return ast.DictComp(key=r(), value=r(), generators=gens)
+    part = lambda: r() if rng.random() < 0.6 else None
+    if rng.random() < 0.25:
+        # an index tuple with slices among its items (printed without parentheses)
+        def item():
+            if rng.random() < 0.6:
+                return ast.Slice(lower=part(), upper=part(), step=part())
+            x = r()
+            while isinstance(x, ast.Starred):
+                x = r()
+            return x
+        items = [item() for _ in range(rng.randint(1, 3))]
+        if not any(isinstance(x, ast.Slice) for x in items):
+            items[0] = ast.Slice(lower=part(), upper=part(), step=part())
+        return ast.Subscript(value=r(), slice=ast.Tuple(elts=items, ctx=G.L), ctx=G.L)
     if rng.random() < 0.4:
-        part = lambda: r() if rng.random() < 0.6 else None
         return ast.Subscript(value=r(), slice=ast.Slice(lower=part(), upper=part(), step=part()), ctx=G.L)
     s = r()
     while isinstance(s, (ast.Slice, ast.Starred)):
